@@ -31,8 +31,8 @@ ASSUMPTIONS = [
     "loss-free means: no datagram dropped, every delay < rpc_timeout/2 so that no honest answer is ever late; duplicates and reordering allowed",
     "'have joined' = every node's join search returned and the network idled for 700 virtual seconds (ping queues drained)",
     "no node re-announces (no BlobAnnouncer / completed_blobs), so expiry is observable; clock jumps are made only while no RPC is in flight",
-    "'nodes closest to its hash' is asserted weakly (at least one of the true min(K,N-1) closest nodes stores the blob when N > K+1); the "
-    "fraction is recorded as a label (upstream tolerates 80%)",
+    "'nodes closest to its hash': at least three quarters of the true min(K,N-1) closest nodes must store the blob (on the unchanged "
+    "tree all of them did in every announcement of every run; upstream's own tests tolerate 80%); the fraction is recorded as a label",
     "termination bound: elapsed <= (find requests sent + 1) * rpc_timeout (every probe ends within one timeout, a new round starts as "
     "soon as a probe ends); a 200000 s virtual cap detects hangs",
     "the liveness claims are decided as bounded-time safety properties on the virtual clock; 'any network' is sampled",
@@ -139,7 +139,7 @@ def hit_strategy(tier):
         "blob_mode": st.sampled_from(["random", "near_node", "near_announcer"]),
         "lookers_after_jump": st.integers(1, 4),
         "re_subset": st.sampled_from(["all", "first", "first"]),
-        "shared_ip": st.sampled_from([0, 0, 2, 3]),        # 0: every node has its own address
+        "shared_ip": st.sampled_from([0, 0, 2, 3, 1]),     # 0: every node has its own address; 1: all behind one address
         "via_queue": st.sampled_from([False, False, True]),  # first-stage lookups through Node.accumulate_peers
         "stages": st.sampled_from([["now"], ["now", "1h"], ["now", "24h-"], ["now", "24h+"], ["now", "1h", "24h-", "24h+"],
                                    ["now", "24h-", "24h+"], ["now", "re20h", "25h", "44h+"], ["re20h", "25h"],
@@ -236,6 +236,10 @@ async def hit_async(case, out, loop):
             out.label("closest_storing:%d%%" % (100 * have // len(cand) // 25 * 25))
             if n > K + 1:
                 out.check(have >= 1, "hit:none-of-the-closest-nodes-stores-the-blob", "n=%d have %d of %d" % (n, have, len(cand)))
+            # "stored on nodes closest to its hash": in a loss-free honest network every one of the min(K, N-1) closest nodes stored
+            # it in all ~15000 announcements of the quick and thorough runs on the unchanged tree; three quarters are demanded
+            out.check(have * 4 >= len(cand) * 3, "hit:announcement-not-on-the-closest-nodes",
+                      "n=%d announcer %d: %d of the %d closest nodes store it" % (n, a, have, len(cand)))
 
         async def check_lookups(stage, lookers, expect):
             for i in lookers:
